@@ -22,11 +22,11 @@ import (
 	"verifharness/sysgen"
 )
 
-func main() { Main("C11", checkC11, GenBufferConsts, sysgen.Gen) }
+func main() { Main("C11", checkC11, GenBufferConsts, sysgen.Gen, stateGen) }
 
 type Spec struct {
-	Sink      string  `json:"sink"`      // direct3 tri stl 3mf | direct2 dxf svg
-	Producers [][]int `json:"producers"` // sizes of the Writes of each producer goroutine
+	Sink      string  `json:"sink"`            // direct3 tri stl 3mf | direct2 dxf svg
+	Producers [][]int `json:"producers"`       // sizes of the Writes of each producer goroutine
 	Reuse     string  `json:"reuse,omitempty"` // "" fresh slice per Write | refill | poison | windows: the producer owns and re-uses the slice it hands to Write (scripts.go)
 }
 
@@ -458,7 +458,13 @@ func checkC11(c *Ctx, r *Report) error {
 	bySink := map[string]int{}
 	multi := 0
 
+	// once the report is full (Violate keeps 50) further cases add nothing: a broken tree is not driven on
+	full := func() bool { return len(r.Violations) >= 50 }
+
 	doSpec := func(stratum string, sp Spec) {
+		if full() {
+			return
+		}
 		id++
 		ids, batches, hasB, count, problem := deliver(sp, scratch)
 		key := specKey(sp)
@@ -524,6 +530,9 @@ func checkC11(c *Ctx, r *Report) error {
 		}
 	}
 	doOps := func(stratum string, o OpSpec) {
+		if full() {
+			return
+		}
 		id++
 		bs := runOps(o)
 		n, thr := tN, "tBufferSize"
@@ -574,6 +583,9 @@ func checkC11(c *Ctx, r *Report) error {
 
 	geoCases := 0
 	doGeo := func(stratum string, g GeoSpec) {
+		if full() {
+			return
+		}
 		id++
 		geoCases++
 		got, batches, hasB, problem := deliverGeo(g, scratch)
@@ -659,6 +671,46 @@ func checkC11(c *Ctx, r *Report) error {
 		}
 	}
 
+	histCases, histSteps := 0, 0
+	doHist := func(stratum string, h HistSpec) {
+		if full() {
+			return
+		}
+		obs := runHist(h, scratch)
+		key := histKey(h)
+		histCases++
+		nontrivial := false
+		for k, st := range h.Steps {
+			if k > 0 && st.Via != "bytes" {
+				nontrivial = true
+			}
+		}
+		r.Case(stratum, key, nontrivial)
+		bySink["history-"+h.Format]++
+		thr := "tBufferSize"
+		if h.Format == "dxf" || h.Format == "svg" {
+			thr = "lBufferSize"
+		}
+		for _, o := range obs {
+			id++
+			histSteps++
+			if o.Bad != "" {
+				before := "a fresh path"
+				if o.Step > 0 {
+					before = "the file left by the steps before"
+				}
+				r.Violate(key, fmt.Sprintf("%s: step %d (%s over %s): %s", h.Format, o.Step, h.Steps[o.Step].Via, before, o.Bad), h)
+			}
+			if o.Want != nil {
+				cd.Add(histTerm(id, thr, o))
+			}
+		}
+		if histCases%53 == 1 && len(obs) > 0 {
+			last := obs[len(obs)-1]
+			r.Sample(map[string]interface{}{"case": key, "written_by_last_step": len(last.Want), "found_in_file": len(last.Got), "count_field": last.Count})
+		}
+	}
+
 	var corpus corpusC11
 	if b, err := os.ReadFile(filepath.Join(c.Verif, "corpus", "C11.json")); err == nil {
 		if err := json.Unmarshal(b, &corpus); err != nil {
@@ -678,7 +730,10 @@ func checkC11(c *Ctx, r *Report) error {
 			var sp Spec
 			var o OpSpec
 			var g GeoSpec
-			if json.Unmarshal(f.Input, &g) == nil && g.Sink != "" && g.Segs != nil {
+			var h HistSpec
+			if json.Unmarshal(f.Input, &h) == nil && h.Format != "" && h.Steps != nil {
+				doHist("replay", h)
+			} else if json.Unmarshal(f.Input, &g) == nil && g.Sink != "" && g.Segs != nil {
 				doGeo("replay", g)
 			} else if json.Unmarshal(f.Input, &sp) == nil && sp.Sink != "" {
 				doSpec("replay", sp)
@@ -695,6 +750,9 @@ func checkC11(c *Ctx, r *Report) error {
 		}
 		for _, g := range corpus.Geo {
 			doGeo("corpus", g)
+		}
+		for _, h := range corpus.Hist {
+			doHist("corpus", h)
 		}
 
 		// ---- generated
@@ -784,6 +842,21 @@ func checkC11(c *Ctx, r *Report) error {
 				}
 			}
 		}
+		// producers that own the slice they hand to Write and use it again afterwards (refill / overwrite /
+		// windows of one array): batches below, at and above the threshold, on an empty and a non-empty buffer
+		for _, dim := range []int{3, 2} {
+			n, sinks := tN, sinks3
+			if dim == 2 {
+				n, sinks = lN, sinks2
+			}
+			for _, mode := range reuseModes {
+				for _, ws := range reuseWrites(rng, n) {
+					for _, sink := range sinks {
+						doSpec(fmt.Sprintf("slice-reuse/%s/%s", sink, mode), Spec{Sink: sink, Producers: [][]int{ws}, Reuse: mode})
+					}
+				}
+			}
+		}
 		// several producers
 		nm := TierN(c.Tier, 300, 1500, 600)
 		for k := 0; k < nm; k++ {
@@ -792,7 +865,6 @@ func checkC11(c *Ctx, r *Report) error {
 			if k%3 == 2 {
 				dim, n, sinks = 2, lN, sinks2
 			}
-			_ = dim
 			np := rng.Range(2, 8)
 			ps := make([][]int, np)
 			for p := range ps {
@@ -800,7 +872,18 @@ func checkC11(c *Ctx, r *Report) error {
 				ps[p] = partition(kinds[rng.Intn(len(kinds))], total, n)
 			}
 			sink := sinks[k%len(sinks)]
-			doSpec(fmt.Sprintf("multi/%s/producers<=%d", sink, (np+3)/4*4), Spec{Sink: sink, Producers: ps})
+			if dim == 2 { // k = 2, 5, 8, ...: k % 3 is constant
+				sink = sinks[(k/3)%len(sinks)]
+			}
+			sp := Spec{Sink: sink, Producers: ps}
+			if k%5 == 4 { // some of the concurrent producers own and re-use their slices
+				sp.Reuse = reuseModes[(k/5)%len(reuseModes)]
+			}
+			doSpec(fmt.Sprintf("multi/%s/producers<=%d", sink, (np+3)/4*4), sp)
+		}
+		// file histories: the target path is not fresh, a drawing object is saved again
+		for _, hc := range genHist(rng, c.Tier, tN, lN, scratch) {
+			doHist(hc.Stratum, hc.Spec)
 		}
 		// segment streams with free geometry (end-to-end collinear chains, reversed, overlapping,
 		// repeated, zero-length ...) to every 2D sink
@@ -870,8 +953,10 @@ func checkC11(c *Ctx, r *Report) error {
 	r.Coverage["cases_by_sink"] = bySink
 	r.Coverage["multi_producer_cases"] = multi
 	r.Coverage["segment_stream_cases"] = geoCases
+	r.Coverage["file_history_cases"] = histCases
+	r.Coverage["file_history_steps_read_back"] = histSteps
 	r.Coverage["thresholds"] = map[string]int{"tBufferSize": tN, "lBufferSize": lN}
-	r.Rule = "deliver cases: scripted Render3/Render2 writing numbered items (id = producer<<20 | index) through the real sdf.NewTriangle3Buffer / NewLine2Buffer into a harness-owned channel (batches visible) or render.ToTriangles / ToSTL / To3MF / ToDXF / ToSVG (files decoded by an own STL reader, go3mf's reader, yofu/dxf's parser, encoding/xml); item counts 0,1,2,N-1,N,N+1,2N-1,2N,2N+1,3N,5N-1,5N,5N+1,large; Write partitions one-write / singles / marching-cubes-like (0..5, mostly empty) / straddling the threshold / random chunks up to 2N / empty writes in between; 1..8 concurrent producers. segment cases: streams of segments with free geometry on the quarter grid (unit steps end to end along an axis, along a diagonal, a closed box outline, chained but reversed, back and forth, collinear overlapping, identical repeated, zero-length, random on 3x3 grid points, zig-zag, random) of 1,2,3,7,N-1,N+2 segments written in one Write / one by one / random chunks to the Line2Buffer collector, ToDXF and ToSVG: the sink must hold exactly the written segments, each once, in order. ops cases: random Write/Close sequences on the real buffers (writes after Close, repeated Close, no Close). Non-trivial = at least one item (deliver) or at least two operations (ops); distinct by the spec."
+	r.Rule = "deliver cases: scripted Render3/Render2 writing numbered items (id = producer<<20 | index) through the real sdf.NewTriangle3Buffer / NewLine2Buffer into a harness-owned channel (batches visible) or render.ToTriangles / ToSTL / To3MF / ToDXF / ToSVG (files decoded by an own STL reader, go3mf's reader, yofu/dxf's parser, encoding/xml); item counts 0,1,2,N-1,N,N+1,2N-1,2N,2N+1,3N,5N-1,5N,5N+1,large; Write partitions one-write / singles / marching-cubes-like (0..5, mostly empty) / straddling the threshold / random chunks up to 2N / empty writes in between; 1..8 concurrent producers. segment cases: streams of segments with free geometry on the quarter grid (unit steps end to end along an axis, along a diagonal, a closed box outline, chained but reversed, back and forth, collinear overlapping, identical repeated, zero-length, random on 3x3 grid points, zig-zag, random) of 1,2,3,7,N-1,N+2 segments written in one Write / one by one / random chunks to the Line2Buffer collector, ToDXF and ToSVG: the sink must hold exactly the written segments, each once, in order. slice-reuse cases: the same sinks fed by producers that OWN the slice they hand to Write and use it again as soon as Write has returned - one scratch slice refilled for the next batch (refill), the whole scratch array overwritten with never-written items after every Write (poison), consecutive windows of one array holding all items so that a window's spare capacity is the producer's future items (windows) - with batches below, at and above the threshold arriving at an empty and at a non-empty buffer; the direct sinks of these cases keep the batches they receive and read them only after the channel is closed (a sent batch belongs to the consumer), so a buffer or collector that keeps the caller's slice instead of the items shows without relying on an interleaving; some multi-producer cases use these producers too. history cases: every file sink (STL, 3MF, DXF, SVG) through its streaming entry point To* and its batch entry points SaveSTL / SaveDXF / SaveSVG / NewDXF..Save / NewSVG..Save writing to a path that is NOT fresh: an earlier valid file of the same format that is longer / shorter / equally long, written by the same or by another entry point in the same process; an empty output over a non-empty file; arbitrary bytes (zero, 0xff, text, pseudo-random) that are absent / shorter / as long / one byte longer / much longer than the new output; histories of 3..6 such steps; one DXF / SVG drawing object saved twice, with lines added after a save, with another entry point or garbage writing the path in between; after EVERY writing step the file is decoded and must hold exactly the items of that step (for a drawing object: everything added to it so far), each once, in order - for STL also count field = records present = items written. ops cases: random Write/Close sequences on the real buffers (writes after Close, repeated Close, no Close). Non-trivial = at least one item (deliver) or at least two operations (ops); distinct by the spec."
 	r.Trusted = append(r.Trusted,
 		"model coq/Sys/Buffer.v of Triangle3Buffer/Line2Buffer Write/Close and the consumer loops, tied twice: by translation (harness/sysgen extracts the statement skeleton of the four methods, of WriteTriangles / writeSTL / write3MF / writeDXF / writeSVG and of the To* drivers from the current source into Generated/SysProgs.v; Sys/BufferProg.v and Sys/PipeProg.v give those programs a small-step meaning and the C11_source_* theorems prove it equal to Buffer.step resp. a refinement of Pipeline.v) and by differential execution (cases_deliver_*.v, cases_ops_*.v): delivered sequence, batch lengths on the channel, STL count field",
 		"harness/sysgen: the classification of a Go statement as a protocol statement or as a Data statement (mentions no tracked object, no channel / lock / WaitGroup / go / defer / return / branch), the inlining of unexported helpers, and the reading of each primitive statement (Lock, append, send, ...) by the interpreters of BufferProg.v / PipeProg.v",
